@@ -63,7 +63,7 @@ theorem foldNode_goodL (acc : AnyIt) (L r : List Sample) (hacc : GoodL acc L)
     (h : ∀ x ∈ r, minT < x.t) : GoodL (foldNode true false acc r) (pm2 minT L r) := by
   obtain ⟨V, abs, hl, hi⟩ := hacc
   exact ⟨nodeV V leafV abs Leaf.rest, nodeAbs abs Leaf.rest, node_listLike hl leaf_listLike true,
-    node_initLike hl leaf_listLike hi (leaf_initLike r h)⟩
+    node_initLike hl leaf_listLike hi.toNext (leaf_initLike r h).toNext⟩
 
 theorem foldl_goodL (rs : List (List Sample)) : ∀ (acc : AnyIt) (L : List Sample), GoodL acc L →
     (∀ q ∈ rs, ∀ x ∈ q, minT < x.t) →
